@@ -1,5 +1,7 @@
 import Circomspect.Model.Field
 import Circomspect.Spec.Field
+import Circomspect.Model.Strip
+import Circomspect.Spec.Strip
 
 namespace Driver
 open Circomspect
@@ -34,10 +36,49 @@ def fieldSpecCmd (args : List String) : String :=
     | _, _, _ => "bad-op"
   | _ => "bad-op"
 
+def hexVal (c : Char) : Option Nat :=
+  if '0' ≤ c ∧ c ≤ '9' then some (c.toNat - '0'.toNat)
+  else if 'a' ≤ c ∧ c ≤ 'f' then some (c.toNat - 'a'.toNat + 10)
+  else none
+
+def unhex : List Char → ByteArray → Option ByteArray
+  | [], acc => some acc
+  | a :: b :: r, acc =>
+    match hexVal a, hexVal b with
+    | some x, some y => unhex r (acc.push (UInt8.ofNat (x * 16 + y)))
+    | _, _ => none
+  | _, _ => none
+
+def hexDigit (n : Nat) : Char := if n < 10 then Char.ofNat (48 + n) else Char.ofNat (87 + n)
+
+def toHex (s : String) : String :=
+  let bs := s.toUTF8
+  String.ofList (bs.toList.flatMap (fun b => [hexDigit (b.toNat / 16), hexDigit (b.toNat % 16)]))
+
+def decodeHexStr (h : String) : Option String :=
+  if h == "-" then some "" else
+  match unhex h.toList ByteArray.empty with
+  | some ba => String.fromUTF8? ba
+  | none => none
+
+def showStrip : Except Nat (List Char) → String
+  | .ok o => let t := toHex (String.ofList o); if t.isEmpty then "ok -" else "ok " ++ t
+  | .error e => s!"err {e}"
+
+def stripCmd (spec : Bool) (args : List String) : String :=
+  match args with
+  | [h] =>
+    match decodeHexStr h with
+    | some s => showStrip (if spec then StripSpec.strip s.toList else Strip.preprocess s.toList)
+    | none => "bad-op"
+  | _ => "bad-op"
+
 def handle (line : String) : String :=
   match line.splitOn " " with
   | "field" :: args => fieldCmd args
   | "fieldspec" :: args => fieldSpecCmd args
+  | "strip" :: args => stripCmd false args
+  | "stripspec" :: args => stripCmd true args
   | _ => "bad-op"
 
 end Driver
